@@ -93,6 +93,8 @@ func universe() []namedVal {
 		// structs whose type is comparable but whose interface-typed field holds something that is not
 		{"stUncmp", uncmp{X: []int{1}}}, {"stUncmp2", uncmp{X: []int{1}}}, {"slUncmp", []uncmp{{X: map[string]int{"a": 1}}, {X: 1}}}, {"ifUncmp", any(uncmp{X: []string{"a"}})},
 		{"fnNilValue", func() *pongo2.Value { return nil }}, {"fnNilValueErr", func() (*pongo2.Value, error) { return nil, nil }},
+		// values that contain themselves
+		{"pCyc", pCyc},
 		{"fnVarS", func(p string, xs ...string) string { return p }}, {"fnVarV", func(xs ...*pongo2.Value) int { return len(xs) }}, {"fnVarA", func(xs ...any) int { return len(xs) }},
 	}
 }
@@ -102,7 +104,22 @@ func universeCtx() pongo2.Context {
 	for _, nv := range universe() {
 		c[nv.Name] = nv.V
 	}
+	// a slice and a map that contain themselves: not part of the enumerated universe (Go's own fmt does not survive
+	// them), used by a few dedicated cases
+	c["slCyc"], c["mCyc"] = slCyc, mCyc
 	return c
 }
 
 type uncmp struct{ X any }
+
+type cycNode struct {
+	Name string
+	Next *cycNode
+	Any  any
+}
+
+var (
+	slCyc = func() []any { l := []any{1, nil}; l[1] = l; return l }()
+	mCyc  = func() map[string]any { m := map[string]any{"a": 1}; m["self"] = m; return m }()
+	pCyc  = func() *cycNode { n := &cycNode{Name: "n"}; n.Next = n; n.Any = n; return n }()
+)
